@@ -133,3 +133,27 @@ func VerifC16_CloseAfterPubsubStopped() {
 	verif_Quiesce()
 	verif_Assert(verif_LiveThreads() <= 0, "the pubsub watcher goroutine exits")
 }
+
+// C16 / C09 (with a libp2p host but WITHOUT a pubsub topic — announcements
+// arrive only directly, e.g. over HTTP, while the process has a host for other
+// purposes): the receiver works like one without pubsub; nothing panics, Close
+// returns, waiters are released.
+func VerifC16_HostWithoutTopic() {
+	self, sender := c09pid(0x5e), c09pid(0xaa)
+	r, err := NewReceiver(c09host{id: self}, "")
+	verif_Assert(err == nil && r != nil, "a receiver with a host and no topic is created")
+	if r == nil {
+		return
+	}
+	verif_Quiesce() // whatever background goroutine the receiver starts has run
+	verif_Reach("settled")
+	verif_Assert(r.Direct(context.Background(), c09cid(31), peer.AddrInfo{ID: sender}) == nil, "a direct announcement is accepted")
+	a, nerr := r.Next(context.Background())
+	verif_Assert(nerr == nil && a.Cid == c09cid(31) && a.PeerID == sender, "and delivered")
+	verif_Assert(r.Close() == nil, "Close succeeds")
+	_, nerr = r.Next(context.Background())
+	verif_Assert(nerr == ErrClosed, "Next after Close returns the closed error")
+	verif_Assert(r.Close() == nil, "Close can be repeated")
+	verif_Quiesce()
+	verif_Assert(verif_LiveThreads() <= 0, "no goroutine of the receiver remains")
+}
